@@ -50,6 +50,7 @@ def is_poisoned(v):
 # themselves) - when they are built or whenever they are iterated - and after
 # which no selection can leave an example out again
 EVALUATING = ('filter', 'efilter', 'sort', 'groupby', 'ecache', 'catchfilter', 'catch',
+              'catchprefetch',
               'prefetch1', 'prefetcht', 'parmap', 'unbatch', 'cycle', 'apply_lazy',
               'reshuffle', 'localshuffle', 'mapfail')
 
@@ -482,6 +483,13 @@ def _apply_op(m, op, operand=None):
               'pool prefetch needs len and indexing')
         return m.clone(indexable=False, listable=False,
                        items=m.items and m.listable and m.bykey, bykey=False)
+    if k == 'catchprefetch':
+        # .map(raise FilterException for ids divisible by mod)
+        # .prefetch(2, 3, 't', catch_filter_exception=True): the pool prefetch
+        # leaves the failing examples out (and offers no length then)
+        c = _apply_op(m.clone(batched=False), ('prefetcht', 2, 3))
+        return c.clone(entries=[(a, v) for a, v in c.entries if sid(v) % op[1] != 0],
+                       sized=False)
     if k == 'apply_lazy':
         _need(m.copyable, 'lazy apply copies its input')
         if not m.finite:
@@ -494,7 +502,7 @@ def _apply_op(m, op, operand=None):
 
 TRANSPARENT = ('map', 'parmap', 'apply_eager', 'mapfail', 'batch', 'batch_map',
                'copy', 'freeze', 'tile')
-NOT_FROZEN_INDEXABLE = ('filter', 'unbatch', 'catch', 'prefetch1', 'prefetcht',
+NOT_FROZEN_INDEXABLE = ('filter', 'unbatch', 'catch', 'catchfilter', 'catchprefetch', 'prefetch1', 'prefetcht',
                         'apply_lazy', 'localshuffle', 'cycle')
 
 
@@ -510,7 +518,7 @@ def apply(m, op, operand=None):
         # result the reference defines
         raise Skip
     fi = getattr(m, 'findexable', m.indexable)
-    if k in ('catch', 'prefetcht') and fi and not m.indexable:
+    if k in ('catch', 'prefetcht', 'catchprefetch') and fi and not m.indexable:
         # judge the operation on the frozen view of its input
         new = _apply_op(m.clone(indexable=True), op, operand)
     else:
